@@ -105,7 +105,7 @@ def dump (d : DSt) (newEvents : List Event) : String :=
   let inv := b01 (wfOK d.s) ++ b01 (acyclicOK d.s) ++ b01 (acctOK d.s) ++ b01 (flagsOK d.s)
   s!"ok={joinNat "," oks} no={joinNat "," nos} | {" ".intercalate (nobj ++ objs)} | " ++
   s!"bal={liveRegions d.s 0},{liveRegions d.s 1} ## ord={ord} {" ".intercalate (nint ++ ints)} " ++
-  s!"inv={inv} oof={b01 d.s.oof}"
+  s!"inv={inv} oof={b01 d.s.oof}{b01 d.s.stuck}"
 
 def parseDtor : List String → Option Dtor
   | ["none"] => some .none
